@@ -2,7 +2,7 @@
 # confirm_seed2.sh <id> <demo-dir> : as confirm_seed.sh for second-round seeds (demo named TestSeededDemo,
 # placed in <demo-dir> of the scratch worktree /tmp/wt/<id>, which is in the patched state).
 set -u
-id=$1; ddir=$2; wt=/tmp/wt/$id; out=/tmp/seed_out/$id; dst=/verif/seeded/$id
+id=$1; ddir=$2; dflags=${3:-}; wt=/tmp/wt/$id; out=/tmp/seed_out/$id; dst=/verif/seeded/$id
 export GOPROXY=off GOSUMDB=off GOTOOLCHAIN=local GOFLAGS=
 log=/tmp/confirm_$id.log; : > $log
 cd $wt || exit 2
@@ -10,9 +10,9 @@ git diff > /tmp/confirm_$id.diff
 cmp -s /tmp/confirm_$id.diff $out/patch.diff || echo "NOTE: worktree diff differs from patch.diff" >> $log
 go build ./... >> $log 2>&1 || { echo "BUILD FAILED" >> $log; exit 1; }
 cp $out/demo_test.go $wt/$ddir/zz_confirm_demo_test.go
-go test -vet=off -count=1 -run 'TestSeededDemo' $ddir > /tmp/confirm_$id.with 2>&1; with=$?
+go test -vet=off -count=1 $dflags -run TestSeededDemo $ddir > /tmp/confirm_$id.with 2>&1; with=$?
 git apply -R $out/patch.diff
-go test -vet=off -count=1 -run 'TestSeededDemo' $ddir > /tmp/confirm_$id.without 2>&1; without=$?
+go test -vet=off -count=1 $dflags -run TestSeededDemo $ddir > /tmp/confirm_$id.without 2>&1; without=$?
 git apply $out/patch.diff
 rm -f $wt/$ddir/zz_confirm_demo_test.go
 echo "demo with patch exit=$with (expect !=0), without patch exit=$without (expect 0)" >> $log
